@@ -11,7 +11,7 @@ reaching any panic site of that profile"; `none` = panic. `toMat n M` is the mat
 (Mathlib), `vec n w` a word as a vector; ranks are Mathlib's `Matrix.rank`.
 All theorems are about the model Ymq/Model/Gf2Small.lean (tied to the code by the K stream `sm_*`/`smr_*`).
 -/
-import Ymq.Lemmas.Gf2SmallPinv
+import Ymq.Lemmas.Gf2SmallCallsite
 import Ymq.Lemmas.Gf2SmallInverse
 import Ymq.Model.Gf2Genblock
 
@@ -54,12 +54,10 @@ theorem rank_profile_independent (n : Nat) (M : Mat) (hM : WF n M) : rank n true
     · rw [if_pos hc] at hr; cases hr
     · rw [if_neg hc] at hr; exact hr.symm
 
-/-- (b) `SmallMat::pseudoinverse` on its documented domain ("null coefficients outside of a set of
-indices I"): if `T` is supported on `S × S` where `S` is the mask that `rank` selects for `T` (hence
-`|S| = rank T` and the `S × S` block is invertible), every value returned is the matrix `W` supported on
-`S × S` (rows outside `S` null, rows inside `S`) with `W · T = identity on S` (`maskedId n S`: row `s` is
-`1 << s` for `s ∈ S`, null otherwise) — Montgomery's `W = S (Sᵗ T S)⁻¹ Sᵗ`. Both profiles. -/
-theorem pseudoinverse_spec (n : Nat) (dbg : Bool) (T : Mat) (hT : WF n T) (rk S : Nat)
+/-- (b), soundness for every size `n` (no bound from the 256-entry index array): every value returned
+by `pseudoinverse` on its documented domain is the inverse on `S`; see `pseudoinverse_spec` for the
+total statement. -/
+theorem pseudoinverse_sound (n : Nat) (dbg : Bool) (T : Mat) (hT : WF n T) (rk S : Nat)
     (hr : rank n dbg T = some (rk, S)) (hD : Supported n T S) (W : Mat)
     (h : pseudoinverse n dbg T = some W) :
     W.length = n ∧ (∀ k, k < n → row W k < 2 ^ n) ∧ Supported n W S ∧
@@ -167,74 +165,89 @@ theorem identity_spec (n : Nat) : (identity n).length = n ∧ toMat n (identity 
   funext j
   simp [Matrix.one_apply, Pi.single_apply, eq_comm]
 
-/-- (d) `rank_reverse` is `rank` of the reversed matrix with the mask read from the other end: it
-never panics, bit `t` of the returned mask is bit `n-1-t` of the mask selected in `reverse n M`, whose
-selected rows are a basis of the row space of `reverse n M`. PARTIAL: the transfer of the rank and of
-the independence from `reverse n M` back to `M` (a simultaneous permutation of rows and columns) is
-not proved. -/
-theorem rank_reverse_spec_partial (n : Nat) (dbg : Bool) (M : Mat) (hM : WF n M) :
-    ∃ rk mask', rank n dbg (reverse n M) = some (rk, mask') ∧
-      rankReverse n dbg M = some (rk, reverseLane n mask') ∧ popcount n mask' = rk ∧
-      (toMat n (reverse n M)).rank = rk ∧
-      (∀ t, t < n → (reverseLane n mask').testBit t = mask'.testBit (n - 1 - t)) ∧
-      LinearIndependent (ZMod 2) (fun t : {t : Fin n // mask'.testBit t = true} => toMat n (reverse n M) t.1) := by
-  obtain ⟨rk, mask', hr, _, _, hpc, hrank, hind, _⟩ := rank_spec n dbg (reverse n M) (reverse_spec n M hM).1
-  refine ⟨rk, mask', hr, ?_, hpc, hrank, fun t ht => ?_, hind⟩
-  · unfold rankReverse; rw [hr]
-  · rw [testBit_reverseLane]; simp [ht]
+/-- (b) `SmallMat::pseudoinverse` on its documented domain ("null coefficients outside of a set of
+indices I"): if `T` is null outside `S × S` where `S` is the mask that `rank` selects for `T` (hence
+`|S| = rank T` and the `S × S` block is invertible; symmetry is NOT needed), NO panic site is reached in
+either profile — the `.unwrap()` on `position`, the `lz` assertions, `r == 1 << i`, `i < j`, both
+`minv.rank() == self.rank()`, the slice `idx[..rk]` — and the value returned is the matrix `W`
+supported on `S × S` (rows outside `S` null, rows inside `S`) with `W · T = identity on S`
+(`maskedId n S`: row `s` is `1 << s` for `s ∈ S`, null otherwise): Montgomery's `W = S (Sᵗ T S)⁻¹ Sᵗ`.
+`n ≤ 256`: `idx` is a 256-entry array (the code has `n = 64`). -/
+theorem pseudoinverse_spec (n : Nat) (dbg : Bool) (T : Mat) (hT : WF n T) (hn : n ≤ 256) (rk S : Nat)
+    (hr : rank n dbg T = some (rk, S)) (hD : Supported n T S) :
+    ∃ W, pseudoinverse n dbg T = some W ∧ W.length = n ∧ (∀ k, k < n → row W k < 2 ^ n) ∧
+      Supported n W S ∧ toMat n W * toMat n T = toMat n (maskedId n S) := by
+  obtain ⟨rows2, hB, hp⟩ := pseudoinverse_total dbg hn hT.2 hr hD
+  obtain ⟨h1, h2, h3, h4⟩ := hB.result
+  exact ⟨_, hp, h1, h2, h3, h4⟩
 
-/-- (b) at the call site of `kernel_lanczos` (`pipeline`: `rank`/`rank_reverse`, `mask`,
-`pseudoinverse`, `debug_assert!(ginv.rank() == (rk, mask))`): whenever the sequence returns `(rk, S, W)`
-and the masked matrix `T = gram.mask(S)` has `S` as its own rank selection (which the checked profile
-asserts in `submatrix()`), `W` is Montgomery's pseudo-inverse: supported on `S × S`, `W·T` = identity on
-`S`, hence `W·T·W = W`.  PARTIAL: that a SYMMETRIC Gram matrix always satisfies the hypothesis `hsel`
-(Montgomery, Section 8: rows `S` a basis of the row space of a symmetric matrix ⇒ the `S × S` block is
-invertible) and that no panic occurs (pivot existence for every column of `S`, the two
-`minv.rank() == self.rank()` assertions) is NOT proved; it is sampled by the K/O streams
-(all 1024 symmetric 4x4 matrices, every rank 0..64 at size 64). -/
-theorem pipeline_spec_partial (n : Nat) (dbg rev : Bool) (G : Mat) (hG : WF n G) (rk S : Nat) (W : Mat)
-    (h : Ymq.Gf2Genblock.pipeline n dbg rev G = some (rk, S, W))
-    (hsel : rank n dbg (maskRows n G S) = some (rk, S)) :
-    Supported n W S ∧ toMat n W * toMat n (maskRows n G S) = toMat n (maskedId n S) ∧
-    toMat n W * toMat n (maskRows n G S) * toMat n W = toMat n W := by
-  unfold Ymq.Gf2Genblock.pipeline at h
-  split at h
-  · cases h
-  · rename_i rk' mk' _
-    rw [mask_eq] at h
-    simp only [] at h
-    split at h
-    · cases h
-    · rename_i w hw
-      split at h
-      · cases h
-      · injection h with h
-        injection h with h1 h
-        injection h with h2 h3
-        subst h1; subst h2; subst h3
-        have hT : WF n (maskRows n G mk') := ⟨length_maskRows n G mk', fun k hk => by
-          rw [row_maskRows G mk' hk]
-          split
-          · exact Nat.lt_of_le_of_lt Nat.and_le_left (hG.2 k hk)
-          · exact Nat.two_pow_pos n⟩
-        have hD : Supported n (maskRows n G mk') mk' := ⟨fun k hk hS => by
-            rw [row_maskRows G mk' hk, hS]; rfl,
-          fun k hk t ht => by
-            rw [testBit_maskRows G mk' hk t] at ht
-            simp only [Bool.and_eq_true] at ht
-            exact ht.2.1⟩
-        obtain ⟨hl, hlt, hS, hmul⟩ := pseudoinverse_spec n dbg _ hT rk' mk' hsel hD w hw
-        refine ⟨hS, hmul, ?_⟩
-        rw [hmul]
-        funext i
-        rw [Matrix.mul_apply_eq_vecMul]
-        show vec n (row (maskedId n mk') i) ᵥ* toMat n w = vec n (row w i)
-        rw [row_maskedId i.2]
-        cases hb : mk'.testBit i with
-        | true => simp only [if_true]; exact vecMul_unit w i.2
-        | false =>
-          simp only [Bool.false_eq_true, if_false]
-          rw [hS.rowsZero i i.2 hb, vec_zero, Matrix.zero_vecMul]
+theorem pseudoinverse_no_panic (n : Nat) (dbg : Bool) (T : Mat) (hT : WF n T) (hn : n ≤ 256) (rk S : Nat)
+    (hr : rank n dbg T = some (rk, S)) (hD : Supported n T S) : ∃ W, pseudoinverse n dbg T = some W := by
+  obtain ⟨W, hW, _⟩ := pseudoinverse_spec n dbg T hT hn rk S hr hD
+  exact ⟨W, hW⟩
+
+/-- (d) `rank_reverse` = `rank` of the reversed matrix with the mask read from the other end: it never
+panics and returns `(rk, S)` with `popcount S = rk = Matrix.rank M` (of `M` itself), the rows of `M`
+selected by `S` linearly independent; `S` reversed is the selection `rank` makes in `reverse n M`
+("the same selection taken from the other end"). -/
+theorem rank_reverse_spec (n : Nat) (dbg : Bool) (M : Mat) (hM : WF n M) :
+    ∃ rk S, rankReverse n dbg M = some (rk, S) ∧ S < 2 ^ n ∧ popcount n S = rk ∧
+      (toMat n M).rank = rk ∧
+      LinearIndependent (ZMod 2) (fun t : {t : Fin n // S.testBit t = true} => toMat n M t.1) ∧
+      rank n dbg (reverse n M) = some (rk, reverseLane n S) := by
+  obtain ⟨rk, S, hr, hS⟩ := rankReverse_selected dbg hM.2
+  refine ⟨rk, S, hr, hS.lt, hS.pc, hS.rank, hS.indep, ?_⟩
+  unfold rankReverse at hr
+  obtain ⟨rk', mk', hr', hF⟩ := rank_spec_aux dbg (M := reverse n M) (fun k hk => reverse_lt M hk)
+  rw [hr'] at hr
+  injection hr with hr
+  injection hr with h1 h2
+  subst h1; subst h2
+  rw [hr', reverseLane_reverseLane hF.maskLt]
+
+/-- Montgomery's lemma at the place where the code asserts it (`submatrix()`:
+`debug_assert!(m.rank() == (r, mask))`): for a SYMMETRIC matrix `G`, masking by the selection of `rank`
+gives a matrix whose own selection is the same — the principal submatrix on a maximal independent set
+of rows of a symmetric matrix is invertible (`montgomery_masked_independent`, proved for symmetric
+matrices over any field; the code's non-greedy choice does not matter, any `rank G` independent rows
+do). `submatrix` therefore never panics on symmetric input. -/
+theorem submatrix_spec (n : Nat) (dbg : Bool) (G : Mat) (hG : WF n G) (hsym : symmetric n G = true) :
+    ∃ rk S, rank n dbg G = some (rk, S) ∧ rank n dbg (maskRows n G S) = some (rk, S) ∧
+      submatrix n dbg G = some (maskRows n G S) := by
+  obtain ⟨rk, S, hr, hS⟩ := rank_selected dbg hG.2
+  have hm := rank_masked_of_symmetric dbg hG.2 hsym hS
+  refine ⟨rk, S, hr, hm, ?_⟩
+  unfold submatrix
+  rw [hsym, hr]
+  simp only [Bool.not_true, Bool.and_false, Bool.false_eq_true, if_false, mask_eq,
+    symmetric_maskRows S hsym, hm, bne_self_eq_false]
+
+/-- (b) the call site of `kernel_lanczos` (`pipeline`: `gram.rank()` or `gram.rank_reverse()`,
+`gram.mask(mask).pseudoinverse()`, `debug_assert!(ginv.rank() == (rk, mask))`) on a SYMMETRIC matrix
+(what the code passes: the Gram matrix `bv · bv`): no panic site is reached, in either profile and either
+direction; `rk = rank G`, `S` has `rk` bits and selects independent rows; the masked matrix
+`T = G.mask(S)` is in the domain of `pseudoinverse` (its own selection is `(rk, S)`); `W` is supported on
+`S × S`, `W·T` = identity on `S`, `W·T·W = W`. -/
+theorem pipeline_spec (n : Nat) (dbg rev : Bool) (G : Mat) (hG : WF n G) (hn : n ≤ 256)
+    (hsym : symmetric n G = true) :
+    ∃ rk S W, Ymq.Gf2Genblock.pipeline n dbg rev G = some (rk, S, W) ∧
+      (toMat n G).rank = rk ∧ popcount n S = rk ∧
+      LinearIndependent (ZMod 2) (fun t : {t : Fin n // S.testBit t = true} => toMat n G t.1) ∧
+      rank n dbg (maskRows n G S) = some (rk, S) ∧ Supported n W S ∧
+      toMat n W * toMat n (maskRows n G S) = toMat n (maskedId n S) ∧
+      toMat n W * toMat n (maskRows n G S) * toMat n W = toMat n W := by
+  obtain ⟨rk, S, W, hp, hS, hm, hl, hlt, hSup, hmul⟩ := pipeline_total dbg rev hn hG.2 hsym
+  refine ⟨rk, S, W, hp, hS.rank, hS.pc, hS.indep, hm, hSup, hmul, ?_⟩
+  rw [hmul]
+  funext i
+  rw [Matrix.mul_apply_eq_vecMul]
+  show vec n (row (maskedId n S) i) ᵥ* toMat n W = vec n (row W i)
+  rw [row_maskedId i.2]
+  cases hb : S.testBit i with
+  | true => simp only [if_true]; exact vecMul_unit W i.2
+  | false =>
+    simp only [Bool.false_eq_true, if_false]
+    rw [hSup.rowsZero i i.2 hb, vec_zero, Matrix.zero_vecMul]
 
 /-! ### genblock -/
 
@@ -280,6 +293,10 @@ example : rank 3 true [0, 0, 0] = some (0, 0) ∧ rank 3 true [0, 2, 0] = some (
 example : Ymq.Gf2Genblock.pipeline 4 true false [1, 2, 4, 0] = some (3, 7, [1, 2, 4, 0]) ∧
     Ymq.Gf2Genblock.pipeline 4 true true [6, 5, 3, 0] = some (2, 6, [0, 4, 2, 0]) := by decide
 example : rank 4 true (maskRows 4 [6, 5, 3, 0] 6) = some (2, 6) := by decide
+/-- hypotheses of `pipeline_spec`, `submatrix_spec` (symmetric, well formed) and of `pseudoinverse_spec`
+(masked by its own selection) are satisfiable -/
+example : WF 4 [6, 5, 3, 0] ∧ symmetric 4 [6, 5, 3, 0] = true ∧ (4 : Nat) ≤ 256 := ⟨⟨rfl, by decide⟩, by decide, by decide⟩
+example : Supported 4 (maskRows 4 [6, 5, 3, 0] 6) 6 := supported_maskRows 4 [6, 5, 3, 0] 6
 example : inverse 3 true [3, 2, 7] = some (some [3, 2, 5]) ∧ inverse 3 true [3, 3, 7] = some none := by decide
 
 /-- the mask of `rank` is not always the first independent rows: for the symmetric matrix with rows
